@@ -253,6 +253,11 @@ Proof.
     destruct Hin as (i & <- & _). reflexivity.
 Qed.
 
+Lemma tick_sites_change m en au te : stays m en au te = false ->
+  snd (tick_sites c (Some m) (Tick en au te)) =
+  leave_sites c m ++ enter_sites c (dispatch en au te) ++ iter_sites c (dispatch en au te).
+Proof. intros H. cbn [tick_sites]. rewrite H. reflexivity. Qed.
+
 (* ------------------------------------------------------------------ *)
 (* counting: every execute / feedback exactly once per iteration         *)
 Notation cnt := (count_occ site_eq_dec).
